@@ -17,8 +17,8 @@ def _registry():
 def write_evidence(prop, tier, seed, code, summary, meta):
     from . import shims
     obs, results = summary["obs"], summary["results"]
-    P = [r for o, r in zip(obs, results) if r and o.level == "P" and o.expect == "proved"]
-    B = [r for o, r in zip(obs, results) if r and o.level == "Bsym" and o.expect == "proved"]
+    P = [r for o, r in zip(obs, results) if r and o.level == "P" and o.expect == "proved" and r.get("verdict") != "noclaim"]
+    B = [r for o, r in zip(obs, results) if r and o.level == "Bsym" and o.expect == "proved" and r.get("verdict") != "noclaim"]
     RT = [r for o, r in zip(obs, results) if r and o.level == "Brt"]
     def agg(rs, key):
         return sum((r.get(key) or 0) for r in rs)
